@@ -365,6 +365,16 @@ def run(ctx, rep):
                     "the file header is derived differently: slice %s / stream %s" % (ea, eb))
         diffs.append("open: header tables are located by find_shdrs/find_phdrs vs parse_section_headers/parse_program_headers (both checked against the same rule by C05); "
                      "the stream parses the tables eagerly and clears its cache")
+    # open-level agreement on the header tables: both parsers are held to the same gABI location rule by C05 (a stream-only or
+    # slice-only deviation there makes one parser open a file the other refuses); that rule is run here as part of this property
+    from . import c05
+    from ..runner import Report
+    sub = Report("C05")
+    c05.run(ctx, sub)
+    bad5 = [v for v in sub.violations if v.rule in ("table-location", "shstrndx")]
+    rep.require(not bad5, "sibling", "open:tables (C05 table-location rule in both parsers)", "src/elf_stream.rs",
+                "section/program header tables are located by the same rule in both parsers",
+                "the two parsers do not locate the header tables by the same rule: %s" % "; ".join("%s: %s" % (v.key, v.msg[:200]) for v in bad5[:3]))
     rep.floor("sibling", "accessor pairs compared", n, 11)
     rep.info["permitted_differences"] = diffs
     rep.info["covered_elsewhere"] = ["symbol_version_table: both parsers are checked against the same wiring specification by C13",
